@@ -53,6 +53,12 @@ CANARIES = [
     ('txnew-release-one-more', 'C03', 'src/tx.rs', 'freelist.release(open_ro_txs[0]);', 'freelist.release(open_ro_txs[0] + 1);'),
     ('txdrop-remove-first', 'C03', 'src/tx.rs', 'open_txs.remove(index);', 'open_txs.remove(0);'),
     ('txdrop-writer-deregisters', 'C03', 'src/tx.rs', '        if !self.lock.writable() {\n            let mut open_txs', '        if self.lock.writable() {\n            let mut open_txs'),
+    ('guard-put-removed', 'C06', 'src/bucket.rs', '        if !self.writable {\n            return Err(Error::ReadOnlyTx);\n        }\n        let mut b = self.inner.borrow_mut();\n        if b.deleted {\n            panic!("Cannot put data', '        let mut b = self.inner.borrow_mut();\n        if b.deleted {\n            panic!("Cannot put data'),
+    ('guard-delete-bucket-late', 'C06', 'src/bucket.rs', '        if !self.writable {\n            return Err(Error::ReadOnlyTx);\n        }\n\n        let mut freelist = self.freelist.borrow_mut();\n        let mut b = self.inner.borrow_mut();', '        let mut freelist = self.freelist.borrow_mut();\n        let mut b = self.inner.borrow_mut();\n        if !self.writable {\n            return Err(Error::ReadOnlyTx);\n        }\n'),
+    ('guard-tx-delete-bucket-removed', 'C06', 'src/tx.rs', '        if !tx.lock.writable() {\n            return Err(Error::ReadOnlyTx);\n        }\n        let freelist = tx.freelist.clone();', '        let freelist = tx.freelist.clone();'),
+    ('guard-commit-removed', 'C06', 'src/tx.rs', '        if !self.writable() {\n            return Err(Error::ReadOnlyTx);\n        }\n', ''),
+    ('get-bucket-always-writable', 'C06', 'src/tx.rs', '            writable: tx.lock.writable(),\n            _phantom: PhantomData,\n        })\n    }\n\n    /// Creates a new bucket', '            writable: true,\n            _phantom: PhantomData,\n        })\n    }\n\n    /// Creates a new bucket'),
+    ('guard-wrong-error', 'C06', 'src/bucket.rs', '        if !self.writable {\n            return Err(Error::ReadOnlyTx);\n        }\n        let mut b = self.inner.borrow_mut();\n        if b.deleted {\n            panic!("Cannot delete data', '        if !self.writable {\n            return Err(Error::KeyValueMissing);\n        }\n        let mut b = self.inner.borrow_mut();\n        if b.deleted {\n            panic!("Cannot delete data'),
 ]
 
 
